@@ -219,6 +219,31 @@ func runC17(c *Ctx) {
 					if strings.HasPrefix(n, "Set") && strings.HasSuffix(n, "Deadline") && isConnVal(pth, mc.Bindings[0]) {
 						return n, pth.resolve(cl.Call.Args[0]), true
 					}
+					// a method value of a thin method of the wrapper itself (func (c *T) setReadDeadline(t time.Time)
+					// error { return c.nextConn.SetReadDeadline(t) }) handed to a watcher shared by both directions
+					for _, b := range bf.Blocks {
+						for _, x := range b.Instrs {
+							ci, ok := x.(ssa.CallInstruction)
+							if !ok {
+								continue
+							}
+							t := ci.Common().StaticCallee()
+							if t == nil || len(t.Blocks) != 1 || len(t.Params) != 2 {
+								continue
+							}
+							for _, y := range t.Blocks[0].Instrs {
+								ic, ok := y.(*ssa.Call)
+								if !ok || !ic.Call.IsInvoke() || len(ic.Call.Args) != 1 || ic.Call.Args[0] != ssa.Value(t.Params[1]) {
+									continue
+								}
+								m := ic.Call.Method.Name()
+								fr, okF := asFieldLoad(ic.Call.Value)
+								if strings.HasPrefix(m, "Set") && strings.HasSuffix(m, "Deadline") && okF && fr.SName == connField.SName && fr.Field == connField.Field && fr.Base == ssa.Value(t.Params[0]) {
+									return m, pth.resolve(cl.Call.Args[0]), true
+								}
+							}
+						}
+					}
 				}
 			}
 			return "", nil, false
@@ -545,8 +570,15 @@ func runC17(c *Ctx) {
 		}
 		if ctxErr == nil {
 			o.Fail(F.Pos(), "%s never reports the context's error", fname(F))
-		} else if !domU(s.IO, ctxErr) {
-			o.Fail(ctxErr.Pos(), "the context's error is sampled before the I/O finished")
+		} else {
+			sampledAfter := domU(s.IO, ctxErr)
+			if !sampledAfter {
+				// the sampling sits in a helper shared by the siblings: only this operation's call of it counts
+				withRoot(F, func() { sampledAfter = domU(s.IO, ctxErr) })
+			}
+			if !sampledAfter {
+				o.Fail(ctxErr.Pos(), "the context's error is sampled before the I/O finished")
+			}
 		}
 		_ = ioErr
 
